@@ -361,6 +361,8 @@ class Values:
                     nodes[c] = zoo.Fix2((zoo.Leaf(), zoo.Expr()))
                 elif c is zoo.Mixed:
                     nodes[c] = zoo.Mixed(zoo.Leaf(), ())
+                elif c is zoo.MixedR:
+                    nodes[c] = zoo.MixedR((), zoo.Leaf())
                 else:
                     nodes[c] = c()
         self.nodes = nodes
